@@ -3,4 +3,459 @@ import DswModel.Lemmas.Decimal
 /-! Helper lemmas for bit / number / DNA conversions (C16). -/
 namespace Dsw
 
+/-- drop leading zeros (possibly down to the empty list): the shortest rendering. -/
+def dropZ : List Nat → List Nat
+  | [] => []
+  | 0 :: r => dropZ r
+  | (d + 1) :: r => (d + 1) :: r
+
+/-- value of a most-significant-first digit list in base `base`. -/
+def valB (base : Nat) (m : List Nat) (n0 : Nat) : Nat := m.foldl (fun n d => n * base + d) n0
+
+theorem dropZ_cons_pos (d : Nat) (r : List Nat) (hd : d ≠ 0) : dropZ (d :: r) = d :: r := by
+  cases d with
+  | zero => exact absurd rfl hd
+  | succ d => rfl
+
+theorem dropZ_length_le (m : List Nat) : (dropZ m).length ≤ m.length := by
+  induction m with
+  | nil => simp [dropZ]
+  | cons d m ih =>
+    cases d with
+    | zero => simp only [dropZ, List.length_cons]; omega
+    | succ d => simp [dropZ]
+
+theorem dropZ_pad (m : List Nat) :
+    List.replicate (m.length - (dropZ m).length) 0 ++ dropZ m = m := by
+  induction m with
+  | nil => simp [dropZ]
+  | cons d m ih =>
+    cases d with
+    | zero =>
+      have := dropZ_length_le m
+      simp only [dropZ, List.length_cons]
+      rw [show m.length + 1 - (dropZ m).length = (m.length - (dropZ m).length) + 1 by omega,
+        List.replicate_succ, List.cons_append, ih]
+    | succ d => simp [dropZ]
+
+/-! ## digitsNat -/
+
+theorem digitsNat_zero (base : Nat) (acc : List Nat) : digitsNat base 0 acc = acc := by
+  rw [digitsNat]; simp
+
+theorem digitsNat_pos (base n : Nat) (acc : List Nat) (hn : n ≠ 0) (hb : 2 ≤ base) :
+    digitsNat base n acc = digitsNat base (n / base) (n % base :: acc) := by
+  rw [digitsNat]
+  have : ¬ (n = 0 ∨ base < 2) := by omega
+  simp [this]
+
+theorem digitsNat_acc (base n : Nat) (acc : List Nat) :
+    digitsNat base n acc = digitsNat base n [] ++ acc := by
+  induction n using Nat.strongRecOn generalizing acc with
+  | _ n ih =>
+    by_cases h : n = 0 ∨ base < 2
+    · rw [digitsNat.eq_1 base n acc, digitsNat.eq_1 base n []]; simp [h]
+    · have hn : n ≠ 0 := by omega
+      have hb : 2 ≤ base := by omega
+      have hlt : n / base < n := Nat.div_lt_self (by omega) hb
+      rw [digitsNat_pos base n acc hn hb, digitsNat_pos base n [] hn hb,
+        ih _ hlt (n % base :: acc), ih _ hlt [n % base]]
+      simp
+
+theorem digitsNat_step (base n d : Nat) (hb : 2 ≤ base) (hd : d < base) (h : n ≠ 0 ∨ d ≠ 0) :
+    digitsNat base (n * base + d) [] = digitsNat base n [] ++ [d] := by
+  have hne : n * base + d ≠ 0 := by
+    rcases h with h | h
+    · have : 0 < n * base := Nat.mul_pos (by omega) (by omega)
+      omega
+    · omega
+  have h1 : (n * base + d) / base = n := by
+    rw [Nat.add_comm, Nat.add_mul_div_right _ _ (by omega), Nat.div_eq_of_lt hd]; omega
+  have h2 : (n * base + d) % base = d := by
+    rw [Nat.add_comm, Nat.add_mul_mod_self_right, Nat.mod_eq_of_lt hd]
+  rw [digitsNat_pos _ _ _ hne hb, h1, h2, digitsNat_acc]
+
+theorem digitsNat_valB (base : Nat) (hb : 2 ≤ base) (m : List Nat) (hm : ∀ d ∈ m, d < base)
+    (n0 : Nat) :
+    digitsNat base (valB base m n0) [] =
+      if n0 = 0 then dropZ m else digitsNat base n0 [] ++ m := by
+  induction m generalizing n0 with
+  | nil =>
+    simp only [valB, List.foldl_nil]
+    split
+    · rename_i h; subst h; rw [digitsNat_zero]; rfl
+    · simp
+  | cons d m ih =>
+    have hd := hm d (by simp)
+    have ih' := ih (fun q hq => hm q (by simp [hq])) (n0 * base + d)
+    simp only [valB, List.foldl_cons] at ih' ⊢
+    rw [ih']
+    by_cases h0 : n0 = 0
+    · subst h0
+      by_cases hd0 : d = 0
+      · subst hd0; simp [dropZ]
+      · have : 0 * base + d ≠ 0 := by omega
+        rw [if_neg this, digitsNat_step base 0 d hb hd (Or.inr hd0), digitsNat_zero,
+          dropZ_cons_pos d m hd0]
+        simp
+    · have : n0 * base + d ≠ 0 := by
+        have : 0 < n0 * base := Nat.mul_pos (by omega) (by omega)
+        omega
+      rw [if_neg this, if_neg h0, digitsNat_step base n0 d hb hd (Or.inl h0)]
+      simp
+
+theorem valB_digitsNat (base : Nat) (hb : 2 ≤ base) (n : Nat) (acc : List Nat) :
+    valB base (digitsNat base n acc) 0 = valB base acc n := by
+  induction n using Nat.strongRecOn generalizing acc with
+  | _ n ih =>
+    by_cases hn : n = 0
+    · subst hn; rw [digitsNat_zero]
+    · have hlt : n / base < n := Nat.div_lt_self (by omega) hb
+      rw [digitsNat_pos base n acc hn hb, ih _ hlt]
+      simp only [valB, List.foldl_cons]
+      rw [Nat.mul_comm, Nat.div_add_mod]
+
+theorem digitsNat_lt (base : Nat) (hb : 2 ≤ base) (n : Nat) (acc : List Nat)
+    (hacc : ∀ d ∈ acc, d < base) : ∀ d ∈ digitsNat base n acc, d < base := by
+  induction n using Nat.strongRecOn generalizing acc with
+  | _ n ih =>
+    by_cases hn : n = 0
+    · subst hn; rw [digitsNat_zero]; exact hacc
+    · have hlt : n / base < n := Nat.div_lt_self (by omega) hb
+      rw [digitsNat_pos base n acc hn hb]
+      apply ih _ hlt
+      intro d hd
+      simp at hd
+      rcases hd with rfl | hd
+      · exact Nat.mod_lt _ (by omega)
+      · exact hacc d hd
+
+theorem digitsNat_length_le (base : Nat) (hb : 2 ≤ base) (L n : Nat) (h : n < base ^ L) :
+    (digitsNat base n []).length ≤ L := by
+  induction L generalizing n with
+  | zero =>
+    have : n = 0 := by simpa using h
+    subst this
+    rw [digitsNat_zero]; simp
+  | succ L ih =>
+    by_cases hn : n = 0
+    · subst hn; rw [digitsNat_zero]; simp
+    · rw [digitsNat_pos base n [] hn hb, digitsNat_acc]
+      have : n / base < base ^ L := by
+        apply Nat.div_lt_of_lt_mul
+        rw [Nat.pow_succ, Nat.mul_comm] at h
+        exact h
+      have := ih _ this
+      simp
+      omega
+
+theorem valB_replicate_zero (base z : Nat) (ds : List Nat) :
+    valB base (List.replicate z 0 ++ ds) 0 = valB base ds 0 := by
+  induction z with
+  | zero => simp
+  | succ z ih =>
+    rw [List.replicate_succ, List.cons_append]
+    simpa [valB] using ih
+
+/-! ## the decimal-string loop -/
+
+theorem digitsStrLoop_spec (base : Nat) (hb : 2 ≤ base) (hb' : base < 10) (f : Nat) (s : Dec)
+    (acc : List Nat) (hs : s.Canonical) (h : s.toNat < 2 ^ f) :
+    digitsStrLoop base (f + 1) s acc = .ok (digitsNat base s.toNat acc) := by
+  induction f generalizing s acc with
+  | zero =>
+    have h0 : s.toNat = 0 := by simpa using h
+    have := hs.eq_zero_of_toNat h0
+    subst this
+    rw [h0, digitsNat_zero]
+    simp [digitsStrLoop]
+  | succ f ih =>
+    rw [digitsStrLoop]
+    by_cases hz : s = [0]
+    · subst hz
+      rw [if_pos rfl]
+      have : Dec.toNat [0] = 0 := rfl
+      rw [this, digitsNat_zero]
+    · rw [if_neg hz]
+      simp only
+      have hne : s.toNat ≠ 0 := fun h0 => hz (hs.eq_zero_of_toNat h0)
+      obtain ⟨c1, c2, _, c4⟩ := calculusDivision_spec s base hs hb' (by omega)
+      have hlt : (calculusDivision s base).1.toNat < 2 ^ f := by
+        rw [c2]
+        apply Nat.div_lt_of_lt_mul
+        rw [Nat.pow_succ] at h
+        have : 2 ^ f * 2 ≤ base * 2 ^ f := by
+          rw [Nat.mul_comm]; exact Nat.mul_le_mul_right _ hb
+        omega
+      rw [ih _ _ c1 hlt, c2, c4, digitsNat_pos base s.toNat acc hne hb]
+
+theorem toNat_lt_two_pow (s : Dec) (hs : ∀ d ∈ s, d < 10) : s.toNat < 2 ^ (4 * s.length) := by
+  have h1 := Dec.toNat_lt s hs
+  have h2 : 10 ^ s.length ≤ 16 ^ s.length := Nat.pow_le_pow_left (by omega) _
+  have h3 : (2 : Nat) ^ (4 * s.length) = 16 ^ s.length := by
+    rw [Nat.pow_mul]
+  omega
+
+theorem digitsStrLoop_fuel (base : Nat) (hb : 2 ≤ base) (hb' : base < 10) (s : Dec)
+    (hs : s.Canonical) (acc : List Nat) :
+    digitsStrLoop base (digitsFuel s) s acc = .ok (digitsNat base s.toNat acc) :=
+  digitsStrLoop_spec base hb hb' (4 * s.length) s acc hs (toNat_lt_two_pow s hs.digits)
+
+/-! ## number → string path (`calculus_multiplication` then `calculus_addition`) -/
+
+theorem strFold_spec (k : Nat) (hk : k < 10) (vs : List Nat) (hv : ∀ v ∈ vs, v < 10) (s0 : Dec)
+    (hs0 : s0.Canonical) :
+    (vs.foldl (fun n v => calculusAddition (calculusMultiplication n k) v) s0).Canonical ∧
+    (vs.foldl (fun n v => calculusAddition (calculusMultiplication n k) v) s0).toNat =
+      valB k vs s0.toNat := by
+  induction vs generalizing s0 with
+  | nil => exact ⟨hs0, rfl⟩
+  | cons v vs ih =>
+    have hv0 := hv v (by simp)
+    obtain ⟨m1, m2⟩ := calculusMultiplication_spec s0 k hs0 hk
+    obtain ⟨a1, a2⟩ := calculusAddition_spec _ v m1 hv0
+    have := ih (fun q hq => hv q (by simp [hq])) _ a1
+    simp only [List.foldl_cons, valB] at this ⊢
+    rw [a2, m2] at this
+    exact this
+
+theorem bitToNumberInt_eq (m : List Nat) : bitToNumberInt m = valB 2 m 0 := rfl
+
+theorem bitToNumberStr_spec (m : List Nat) (hm : ∀ b ∈ m, b < 2) :
+    (bitToNumberStr m).Canonical ∧ (bitToNumberStr m).toNat = bitToNumberInt m := by
+  have := strFold_spec 2 (by omega) m (fun v hv => by have := hm v hv; omega) [0]
+    Dec.canonical_zero
+  exact this
+
+/-! ## fitBits -/
+
+theorem fitBits_length (one : List Nat) (L : Nat) : (fitBits one L).length = L := by
+  unfold fitBits
+  split
+  · assumption
+  · split
+    · simp; omega
+    · simp; omega
+
+theorem fitBits_of_le (one : List Nat) (L : Nat) (h : one.length ≤ L) :
+    fitBits one L = List.replicate (L - one.length) 0 ++ one := by
+  unfold fitBits
+  split
+  · rename_i h1; simp [h1]
+  · rw [if_pos (by omega)]
+
+theorem fitBits_dropZ (m : List Nat) : fitBits (dropZ m) m.length = m := by
+  rw [fitBits_of_le _ _ (dropZ_length_le m), dropZ_pad]
+
+theorem numberToBitInt_bitToNumberInt (m : List Nat) (hm : ∀ b ∈ m, b < 2) :
+    numberToBitInt (bitToNumberInt m) m.length = m := by
+  unfold numberToBitInt
+  rw [bitToNumberInt_eq, digitsNat_valB 2 (by omega) m hm 0, if_pos rfl, fitBits_dropZ]
+
+theorem numberToBitStr_eq (s : Dec) (hs : s.Canonical) (L : Nat) :
+    numberToBitStr s L = .ok (numberToBitInt s.toNat L) := by
+  unfold numberToBitStr numberToBitInt
+  rw [digitsStrLoop_fuel 2 (by omega) (by omega) s hs []]
+  rfl
+
+theorem numberToBitInt_spec (n L : Nat) (h : n < 2 ^ L) :
+    (numberToBitInt n L).length = L ∧ (∀ b ∈ numberToBitInt n L, b < 2) ∧
+    bitToNumberInt (numberToBitInt n L) = n ∧
+    (∃ z, numberToBitInt n L = List.replicate z 0 ++ digitsNat 2 n []) := by
+  have hl := digitsNat_length_le 2 (by omega) L n h
+  have he : numberToBitInt n L = List.replicate (L - (digitsNat 2 n []).length) 0 ++
+      digitsNat 2 n [] := fitBits_of_le _ _ hl
+  refine ⟨fitBits_length _ _, ?_, ?_, ⟨_, he⟩⟩
+  · rw [he]
+    intro b hb
+    simp only [List.mem_append, List.mem_replicate] at hb
+    rcases hb with ⟨_, rfl⟩ | hb
+    · omega
+    · exact digitsNat_lt 2 (by omega) n [] (by simp) b hb
+  · rw [he, bitToNumberInt_eq, valB_replicate_zero, valB_digitsNat 2 (by omega)]
+    rfl
+
+/-! ## nucleotides -/
+
+theorem nucIdx_lt (c : Char) (j : Nat) (h : nucIdx c = some j) : j < 4 := by
+  unfold nucIdx at h
+  split at h
+  · simp at h; omega
+  split at h
+  · simp at h; omega
+  split at h
+  · simp at h; omega
+  split at h
+  · simp at h; omega
+  · simp at h
+
+theorem nucChar_nucIdx (c : Char) (j : Nat) (h : nucIdx c = some j) : nucChar j = c := by
+  unfold nucIdx at h
+  split at h
+  · simp at h; subst h; simp [nucChar, *]
+  split at h
+  · simp at h; subst h; simp [nucChar, *]
+  split at h
+  · simp at h; subst h; simp [nucChar, *]
+  split at h
+  · simp at h; subst h; simp [nucChar, *]
+  · simp at h
+
+theorem nucIdx_nucChar (j : Nat) (h : j < 4) : nucIdx (nucChar j) = some j := by
+  have : j = 0 ∨ j = 1 ∨ j = 2 ∨ j = 3 := by omega
+  rcases this with rfl | rfl | rfl | rfl <;> decide
+
+theorem nucIdx_nucChar_isSome (j : Nat) : (nucIdx (nucChar j)).isSome = true := by
+  unfold nucChar
+  split
+  · decide
+  split
+  · decide
+  split
+  · decide
+  · decide
+
+/-- the digit values of a strand. -/
+def nucVals (d : List Char) : List Nat := d.map fun c => (nucIdx c).getD 0
+
+theorem nucVals_lt (d : List Char) : ∀ v ∈ nucVals d, v < 4 := by
+  intro v hv
+  simp only [nucVals, List.mem_map] at hv
+  obtain ⟨c, _, rfl⟩ := hv
+  cases h : nucIdx c with
+  | none => simp
+  | some j => simpa using nucIdx_lt c j h
+
+theorem nucVals_length (d : List Char) : (nucVals d).length = d.length := by simp [nucVals]
+
+theorem nucValues_ok (d : List Char) (hd : ∀ c ∈ d, (nucIdx c).isSome = true) :
+    nucValues d = .ok (nucVals d) := by
+  induction d with
+  | nil => rfl
+  | cons c d ih =>
+    have hc := hd c (by simp)
+    have := ih (fun q hq => hd q (by simp [hq]))
+    cases h : nucIdx c with
+    | none => simp [h] at hc
+    | some j => simp [nucValues, h, this, nucVals, Except.map]
+
+theorem nucValues_error (d : List Char) (hd : ¬ ∀ c ∈ d, (nucIdx c).isSome = true) :
+    nucValues d = .error .valueError := by
+  induction d with
+  | nil => exact absurd (by simp) hd
+  | cons c d ih =>
+    cases h : nucIdx c with
+    | none => simp [nucValues, h]
+    | some j =>
+      have : ¬ ∀ c ∈ d, (nucIdx c).isSome = true := by
+        intro hall
+        apply hd
+        intro x hx
+        simp at hx
+        rcases hx with rfl | hx
+        · simp [h]
+        · exact hall x hx
+      simp [nucValues, h, ih this, Except.map]
+
+theorem map_nucChar_nucVals (d : List Char) (hd : ∀ c ∈ d, (nucIdx c).isSome = true) :
+    (nucVals d).map nucChar = d := by
+  induction d with
+  | nil => rfl
+  | cons c d ih =>
+    have hc := hd c (by simp)
+    have := ih (fun q hq => hd q (by simp [hq]))
+    cases h : nucIdx c with
+    | none => simp [h] at hc
+    | some j =>
+      simp only [nucVals, List.map_cons, h, Option.getD_some] at this ⊢
+      rw [nucChar_nucIdx c j h]
+      simp only [List.map_map] at this ⊢
+      rw [this]
+
+theorem nucVals_map_nucChar (ds : List Nat) (h : ∀ v ∈ ds, v < 4) :
+    nucVals (ds.map nucChar) = ds := by
+  induction ds with
+  | nil => rfl
+  | cons v ds ih =>
+    have := ih (fun q hq => h q (by simp [hq]))
+    simp only [nucVals, List.map_cons, nucIdx_nucChar v (h v (by simp)), Option.getD_some] at this ⊢
+    rw [this]
+
+theorem nucVals_replicate_A (z : Nat) : nucVals (List.replicate z 'A') = List.replicate z 0 := by
+  simp only [nucVals, List.map_replicate]
+  rfl
+
+theorem nucVals_append (a b : List Char) : nucVals (a ++ b) = nucVals a ++ nucVals b := by
+  simp [nucVals]
+
+/-! ## padDna -/
+
+theorem padDna_length (one : List Nat) (L : Nat) (h : one.length ≤ L) :
+    (padDna one L).length = L := by
+  simp [padDna]; omega
+
+theorem padDna_isDna (one : List Nat) (L : Nat) :
+    ∀ c ∈ padDna one L, (nucIdx c).isSome = true := by
+  intro c hc
+  simp only [padDna, List.mem_append, List.mem_replicate, List.mem_map] at hc
+  rcases hc with ⟨_, rfl⟩ | ⟨j, _, rfl⟩
+  · decide
+  · exact nucIdx_nucChar_isSome j
+
+theorem padDna_dropZ (vs : List Nat) : padDna (dropZ vs) vs.length = vs.map nucChar := by
+  have h : List.replicate (vs.length - (dropZ vs).length) 'A' =
+      (List.replicate (vs.length - (dropZ vs).length) 0).map nucChar := by
+    rw [List.map_replicate]; rfl
+  unfold padDna
+  rw [h, ← List.map_append, dropZ_pad]
+
+theorem nucVals_padDna (one : List Nat) (L : Nat) (h : ∀ v ∈ one, v < 4) :
+    nucVals (padDna one L) = List.replicate (L - one.length) 0 ++ one := by
+  unfold padDna
+  rw [nucVals_append, nucVals_replicate_A, nucVals_map_nucChar one h]
+
+theorem dnaToNumberStr_ok (d : List Char) (hd : ∀ c ∈ d, (nucIdx c).isSome = true) :
+    dnaToNumberStr d =
+      .ok ((nucVals d).foldl (fun n v => calculusAddition (calculusMultiplication n 4) v) [0]) := by
+  unfold dnaToNumberStr
+  rw [nucValues_ok d hd]
+  rfl
+
+theorem dnaToNumberInt_ok (d : List Char) (hd : ∀ c ∈ d, (nucIdx c).isSome = true) :
+    dnaToNumberInt d = .ok (valB 4 (nucVals d) 0) := by
+  unfold dnaToNumberInt
+  rw [nucValues_ok d hd]
+  rfl
+
+theorem dnaStr_spec (d : List Char) :
+    ((nucVals d).foldl (fun n v => calculusAddition (calculusMultiplication n 4) v) [0]).Canonical ∧
+    ((nucVals d).foldl (fun n v => calculusAddition (calculusMultiplication n 4) v) [0]).toNat =
+      valB 4 (nucVals d) 0 :=
+  strFold_spec 4 (by omega) (nucVals d) (fun v hv => by have := nucVals_lt d v hv; omega) [0]
+    Dec.canonical_zero
+
+theorem numberToDnaStr_eq (s : Dec) (hs : s.Canonical) (L : Nat) :
+    numberToDnaStr s L = .ok (numberToDnaInt s.toNat L) := by
+  unfold numberToDnaStr numberToDnaInt
+  rw [digitsStrLoop_fuel 4 (by omega) (by omega) s hs []]
+  rfl
+
+theorem numberToDnaInt_valB (d : List Char) (hd : ∀ c ∈ d, (nucIdx c).isSome = true) :
+    numberToDnaInt (valB 4 (nucVals d) 0) d.length = d := by
+  unfold numberToDnaInt
+  rw [digitsNat_valB 4 (by omega) (nucVals d) (nucVals_lt d) 0, if_pos rfl, ← nucVals_length d,
+    padDna_dropZ, map_nucChar_nucVals d hd]
+
+theorem numberToDnaInt_spec (n L : Nat) (h : n < 4 ^ L) :
+    (numberToDnaInt n L).length = L ∧ (∀ c ∈ numberToDnaInt n L, (nucIdx c).isSome = true) ∧
+    dnaToNumberInt (numberToDnaInt n L) = .ok n ∧
+    (∃ z, numberToDnaInt n L = List.replicate z 'A' ++ (digitsNat 4 n []).map nucChar) := by
+  have hl := digitsNat_length_le 4 (by omega) L n h
+  have hlt := digitsNat_lt 4 (by omega) n [] (by simp)
+  refine ⟨padDna_length _ _ hl, padDna_isDna _ _, ?_, ⟨_, rfl⟩⟩
+  unfold numberToDnaInt
+  rw [dnaToNumberInt_ok _ (padDna_isDna _ _),
+    nucVals_padDna _ _ hlt, valB_replicate_zero, valB_digitsNat 4 (by omega)]
+  rfl
+
 end Dsw
